@@ -70,9 +70,9 @@ func runC30(c *Ctx) {
 				}
 				px, py := pathOf(bo.X), pathOf(bo.Y)
 				switch {
-				case pathHasSuffix(px, "key.Trailer") && pathHasSuffix(py, "keyTrailer"):
+				case pathHasSuffix(px, "Trailer") && pathHasSuffix(py, "keyTrailer"):
 					ops[bo.Op] = true
-				case pathHasSuffix(py, "key.Trailer") && pathHasSuffix(px, "keyTrailer"):
+				case pathHasSuffix(py, "Trailer") && pathHasSuffix(px, "keyTrailer"):
 					ops[mirror[bo.Op]] = true
 				}
 			}
@@ -207,16 +207,16 @@ func runC34(c *Ctx) {
 		if fn == nil {
 			continue
 		}
-		fl := NewFlow(c.P).After("held:e.mu", MethodOn("Lock", "e.mu")).KillAfter("held:e.mu", MethodOn("Unlock", "e.mu")).
+		fl := NewFlow(c.P).After("held:e.mu", MethodOn("Lock", "recv.mu")).KillAfter("held:e.mu", MethodOn("Unlock", "recv.mu")).
 			After("result-published", Pred("store to e.mu.*", func(in ssa.Instruction) bool {
 				st, ok := in.(*ssa.Store)
-				return ok && strings.Contains(pathOf(st.Addr), "e.mu.")
+				return ok && strings.Contains(pathOf(st.Addr), "recv.mu.")
 			}))
 		fl.MaxDepth = 0
 		res := fl.Analyze(fn, emptyState())
-		wake := Or(BuiltinCall("close", "e.mu.ch"), Pred("send on e.mu.ch", func(in ssa.Instruction) bool {
+		wake := Or(BuiltinCall("close", "recv.mu.ch"), Pred("send on e.mu.ch", func(in ssa.Instruction) bool {
 			s, ok := in.(*ssa.Send)
-			return ok && strings.Contains(pathOf(s.Chan), "e.mu.ch")
+			return ok && strings.Contains(pathOf(s.Chan), "recv.mu.ch")
 		}))
 		k := c.Require("C34.O1", res, wake, "waiters are woken only after the result was stored, under the entry mutex", []string{"held:e.mu", "result-published"})
 		if k == 0 {
